@@ -686,7 +686,7 @@ def abs_target(selfn, self_pkg, is_main, q):
 
 # ------------------------------------------------------------- tree streams
 def stream_trees(ctx):
-    ntrees = ctx.n(40, 240)
+    ntrees = ctx.n(36, 240)
     tasks = []
     for i in range(ntrees):
         T = gen_tree(ctx.rng)
@@ -879,7 +879,7 @@ SUFFIXES = ['.py', '.py', '.py', '.pyi', '.pyc', '.so', '.cpython-312-x86_64-lin
 def stream_dotted(ctx):
     from jedi.inference.sys_path import transform_path_to_dotted
     from pathlib import Path, PurePosixPath
-    n = ctx.n(1600, 12000)
+    n = ctx.n(1200, 12000)
     cases, metas = [], []
     kinds = dict(none=0, some=0, pkg=0, several_candidates=0)
     fixed = [(['/foo/ba'], '/foo/bar/baz.py'), (['/foo'], '/foo/bar/baz.py'), (['/foo/'], '/foo/bar/__init__.py'),
